@@ -379,7 +379,7 @@ func runChoose(cfg Config, r *hx.Result) {
 	nRandom, trials := 30, 6
 	draws := []int{0, 1, 8, 16, 24, 32, 40, 48, 56, 63}
 	if cfg.Tier == "thorough" {
-		nRandom, trials = 300, 12
+		nRandom, trials = 200, 12
 	}
 	schemes := []string{"http", "https", "ws"}
 	names := []string{"a", "b", "c", "d"}
@@ -555,4 +555,53 @@ func runAPI(cfg Config, r *hx.Result) {
 		fail("C19 host returned although no eligible host is announced", fmt.Sprint(u, err), "an error")
 	}
 	r.Count("api:resolution-path-checked")
+}
+
+// runFloatEdge: a direct-oracle-only probe of what the exact-arithmetic model leaves out. With
+// weights that are not exactly representable, the total computed in the first pass can exceed what
+// the second pass subtracts; at the largest possible draw (r = 1-2^-53) randomWeight then stays
+// positive after the last eligible host and nil is returned although hosts are eligible.
+// Not sent to the model (float rounding is unmodelled); counted under "unmodelled".
+func runFloatEdge(cfg Config, r *hx.Result) {
+	for _, ws := range [][]string{{"0.2", "0.4", "0.3", "0.1"}, {"0.3", "2.1", "0.9", "0.7", "1.1", "3.3"}} {
+		floatEdgeCase(r, ws, (int64(1)<<53-1)<<10, 3000)
+	}
+}
+
+func floatEdgeCase(r *hx.Result, ws []string, int63 int64, trials int) {
+	op := fmt.Sprintf("d2choosef (%s) %d", strings.Join(ws, " "), int63)
+	parts := make([]string, len(ws))
+	for i, w := range ws {
+		parts[i] = fmt.Sprintf(`"http://f%d:80":%s`, i, w)
+	}
+	data := []byte(`{"weights":{` + strings.Join(parts, ",") + `}}`)
+	c := new(d2.Client)
+	h := c.VerifHandleUriUpdate(d2.VerifNewUris(cluster), d2.TreeCacheEvent{Path: d2.UrisPath(cluster) + "/n1", Data: &data})
+	rec := h.Contents()
+	if len(rec["/n1"]) != len(ws) {
+		r.OracleFail(hx.Case{Sig: "C19 snapshot differs from the fold of the event history (ann event)", Op: op, Impl: canonContents(rec), Expected: string(data)})
+		return
+	}
+	restore := d2.VerifSetRng(constSource{int63})
+	defer restore()
+	nils, foreign := 0, 0
+	for i := 0; i < trials; i++ {
+		got := h.ChooseHost(nil)
+		if got == nil {
+			nils++
+		} else if _, ok := rec["/n1"][*got]; !ok {
+			foreign++
+		}
+	}
+	r.OracleCases++
+	r.Unmodelled["float-rounding (weights not multiples of 1/4)"]++
+	r.Count("choose:float-edge-probe")
+	if foreign > 0 {
+		r.OracleFail(hx.Case{Sig: "C19 returned host is not announced", Op: op, Impl: fmt.Sprint(foreign, " results"), Expected: "an announced host"})
+	}
+	if nils > 0 {
+		r.OracleFail(hx.Case{Sig: "C19 no host returned although an eligible host is announced (float rounding, draw r=1-2^-53)", Op: op,
+			Impl:     fmt.Sprintf("nil in %d of %d calls (depends on the map iteration order of the two passes)", nils, trials),
+			Expected: "one of the " + strconv.Itoa(len(ws)) + " announced hosts, all of positive weight"})
+	}
 }
